@@ -66,9 +66,12 @@ def sendFrames (g : Cfg) : S → List (Nat × Bool) → S
     let r := writeFrame g s size ok
     if r.2 then sendFrames g r.1 rest else r.1
 
-/-- WriteMessage: all fragments under one lock -/
-def send (g : Cfg) (s : S) (frames : List (Nat × Bool)) : S :=
-  if s.closed then s else sendFrames g s frames
+/-- WriteMessage: all fragments under one lock; a data message (`ctl = false`) is queued whole or not at
+all — the room for all its fragments is checked first -/
+def send (g : Cfg) (s : S) (ctl : Bool) (frames : List (Nat × Bool)) : S :=
+  if s.closed then s
+  else if !ctl && g.async && g.qmax > 0 && qlen s + frames.length > g.qmax then s
+  else sendFrames g s frames
 
 /-- the sender goroutine enters conn.Write -/
 def dStart (s : S) : S :=
@@ -133,6 +136,45 @@ structure FrameInfo where
   control : Bool     -- ping / pong / close
   fin : Bool
 
+/-- payload copies read the cache; the frame copy for the data-frame handler -/
+def rxCopy (g : Cfg) (h : Heap) (cid : Nat) (f : FrameInfo) : Heap × List Nat :=
+  let h := if f.bl > 0 then h.touch cid none else h
+  if !f.control && f.bl > 0 && g.df then
+    let m := h.malloc f.bl
+    (m.1.touch m.2 none, [m.2])
+  else (h, [])
+
+/-- the payload of a data frame joins the message under assembly -/
+def rxGrow (h : Heap) (msg : Option (Nat × Nat)) (bl : Nat) : Heap × Option (Nat × Nat) :=
+  if bl > 0 then
+    match msg with
+    | none =>
+      let m := h.malloc bl
+      (m.1.touch m.2 none, some (m.2, bl))
+    | some (mid, ml) => (h.touch mid (some (.append mid)), some (mid, ml + bl))
+  else (h, msg)
+
+/-- message assembly / control payload: (heap, message field, payloads handed to the handlers) -/
+def rxAssemble (h : Heap) (msg : Option (Nat × Nat)) (f : FrameInfo) : Heap × Option (Nat × Nat) × List Nat :=
+  if f.control then
+    if f.bl > 0 then
+      let m := h.malloc f.bl
+      (m.1.touch m.2 none, msg, [m.2])
+    else (h, msg, [])
+  else
+    let p := rxGrow h msg f.bl
+    if f.fin then
+      match p.2 with
+      | some (mid, _) => (p.1, none, [mid])
+      | none =>
+        let m := p.1.malloc 0
+        (m.1, none, [m.2])
+    else (p.1, p.2, [])
+
+/-- the frame leaves the cache -/
+def rxRelease (h : Heap) (cid clen total : Nat) : Heap × Option (Nat × Nat) :=
+  if clen == total then (h.free cid, none) else (h.touch cid none, some (cid, clen - total))
+
 /-- one iteration of Parse's loop for a complete, valid frame (the locked section) -/
 def rxFrame (g : Cfg) (s : S) (f : FrameInfo) : S :=
   if s.closed then s else
@@ -140,42 +182,10 @@ def rxFrame (g : Cfg) (s : S) (f : FrameInfo) : S :=
   | none => s
   | some (cid, clen) =>
     if clen < f.total || f.total == 0 then s else
-    let h := s.heap
-    -- payload copies read the cache
-    let h := if f.bl > 0 then h.touch cid none else h
-    -- frame copy for the data-frame handler
-    let (h, frame) : Heap × List Nat :=
-      if !f.control && f.bl > 0 && g.df then
-        let m := h.malloc f.bl
-        (m.1.touch m.2 none, [m.2])
-      else (h, [])
-    -- message assembly / control payload
-    let (h, message, out) : Heap × Option (Nat × Nat) × List Nat :=
-      if f.control then
-        if f.bl > 0 then
-          let m := h.malloc f.bl
-          (m.1.touch m.2 none, s.message, [m.2])
-        else (h, s.message, [])
-      else
-        let (h, msg) : Heap × Option (Nat × Nat) :=
-          if f.bl > 0 then
-            match s.message with
-            | none =>
-              let m := h.malloc f.bl
-              (m.1.touch m.2 none, some (m.2, f.bl))
-            | some (mid, ml) => (h.touch mid (some (.append mid)), some (mid, ml + f.bl))
-          else (h, s.message)
-        if f.fin then
-          match msg with
-          | some (mid, _) => (h, none, [mid])
-          | none =>
-            let m := h.malloc 0
-            (m.1, none, [m.2])
-        else (h, msg, [])
-    -- the frame leaves the cache
-    let (h, cache) : Heap × Option (Nat × Nat) :=
-      if clen == f.total then (h.free cid, none) else (h.touch cid none, some (cid, clen - f.total))
-    { s with heap := h, cache := cache, message := message, held := s.held ++ out ++ frame }
+    let a := rxCopy g s.heap cid f
+    let b := rxAssemble a.1 s.message f
+    let c := rxRelease b.1 cid clen f.total
+    { s with heap := c.1, cache := c.2, message := b.2.1, held := s.held ++ b.2.2 ++ a.2 }
 
 /-- handleMessage / handleDataFrame for the oldest payload in a local variable: the default ping handler
 sends the pong while the payload is still held; the payload is freed iff ReleasePayload -/
@@ -183,16 +193,16 @@ def rxHandle (g : Cfg) (s : S) (isPing : Bool) (pongFrame : Nat × Bool) : S :=
   match s.held with
   | [] => s
   | id :: rest =>
-    let s := if isPing then send g s [pongFrame] else s
+    let s := if isPing then send g s true [pongFrame] else s
     let h := s.heap.touch id none
     { s with held := rest, heap := if g.rp then h.free id else h }
 
 inductive Act
-  | send (frames : List (Nat × Bool)) | dStart | dEnd (ok : Bool) | dFree | dAdvance | close
+  | send (ctl : Bool) (frames : List (Nat × Bool)) | dStart | dEnd (ok : Bool) | dFree | dAdvance | close
   | rxAppend (n : Nat) | rxFrame (f : FrameInfo) | rxHandle (isPing : Bool) (pong : Nat × Bool)
 
 def step (g : Cfg) (s : S) : Act → S
-  | .send fr => send g s fr
+  | .send ctl fr => send g s ctl fr
   | .dStart => dStart s
   | .dEnd ok => dEnd s ok
   | .dFree => dFree s
